@@ -47,7 +47,7 @@ ALL_OPS = [
     "set_cell", "set_cell", "set_value", "insert_cell", "append_cell", "delete_cell",
     "set_row", "insert_row", "append_row", "delete_row", "set_row_values", "set_values",
     "insert_column", "append_column", "set_column", "delete_column", "set_column_cells",
-    "transpose", "rstrip", "optimize_width", "csv",
+    "transpose", "rstrip", "optimize_width", "csv", "extend_rows", "clear",
 ]
 OPS = list(ALL_OPS)  # a check may narrow / re-weight this before generate()
 
@@ -91,6 +91,11 @@ def rand_op(rng, state, maxn=4):
         if h == 0:
             return {"op": "delete_column", "x": xc}
         return {"op": kind, "x": xc, "r": [rng.choice(VALS) for _ in range(h)]}
+    if kind == "clear":
+        # rare: a cleared table makes the rest of a history trivial
+        return {"op": "clear"} if rng.random() < 0.25 else {"op": "append_row", "r": rand_row(rng), "n": n}
+    if kind == "extend_rows":
+        return {"op": kind, "rs": [{"r": rand_row(rng), "n": rng.choice([1, 1, 2, maxn])} for _ in range(rng.randint(0, 3))]}
     if kind in ("transpose", "optimize_width", "csv"):
         return {"op": kind}
     return {"op": "rstrip", "c": rng.choice((0, 1))}
@@ -101,7 +106,9 @@ def rand_row_op(rng, row):
     x = rng.choice([rng.randint(0, max(0, w - 1)), w, w + 1, w + 3])
     n = rng.choice([1, 1, 2, 3, 5])
     c = rng.choice(VALS)
-    kind = rng.choice(["row_set_cell", "row_set_cell", "row_insert_cell", "row_append_cell", "row_delete_cell", "row_set_values", "row_rstrip"])
+    kind = rng.choice(["row_set_cell", "row_set_cell", "row_insert_cell", "row_append_cell", "row_delete_cell", "row_set_values", "row_rstrip"] * 3 + ["row_clear"])
+    if kind == "row_clear":
+        return {"op": kind}
     if kind in ("row_set_cell", "row_insert_cell"):
         return {"op": kind, "x": x, "c": c, "n": n}
     if kind == "row_append_cell":
@@ -242,7 +249,7 @@ def row_history(seed: int, nsteps: int = 10) -> list:
         if not events:
             ev["pre"] = state
         try:
-            tl.apply_row_op(row, o)
+            tl.apply_row_op(row, o, rng)
         except Exception as ex:  # noqa: BLE001
             ev["exc"] = type(ex).__name__
         ev["post"] = _row_project(row)
